@@ -154,7 +154,7 @@ func (r *Replayer) Run(assignFile string) ([]NativeRun, string, error) {
 	}
 	outFile := assignFile + ".out"
 	os.Remove(outFile)
-	cmd := exec.Command(r.Binary, "-test.run", "^TestVerifReplay$", "-test.count=1")
+	cmd := exec.Command(r.Binary, "-test.run", "^TestVerifReplay$", "-test.count=1", "-test.timeout=300s")
 	cmd.Dir = r.L.PkgDir
 	cmd.Env = append(goEnv(), "VERIF_REPLAY="+assignFile, "VERIF_REPLAY_OUT="+outFile)
 	var buf bytes.Buffer
@@ -205,6 +205,10 @@ func (r *Replayer) Confirm(o *Obligation) (bool, string, string) {
 		return false, path, fmt.Sprintf("native replay returned %d runs", len(runs))
 	}
 	run := runs[0]
+	if strings.HasPrefix(run.End, "skipped:") {
+		o.cand.skipped = strings.TrimPrefix(run.End, "skipped:")
+		return false, path, "native twin skipped: " + o.cand.skipped
+	}
 	if run.Desync != "" {
 		o.cand.infra = true
 		return false, path, "native run consumed the assignment differently: " + run.Desync
